@@ -25,6 +25,7 @@ type gStep struct {
 	Stack   []string `json:"stack"`
 	Depth   int      `json:"depth"`
 	OpName  string   `json:"opName"`
+	Refund  int64    `json:"refund"`
 	Error   string   `json:"error"`
 	Output  *string  `json:"output"`
 }
@@ -116,15 +117,15 @@ func localise(r *vrt.Run, bin string, c *Case, txs []*refevm.Tx) string {
 			if len(g.Stack) > 0 {
 				gtop = g.Stack[len(g.Stack)-1]
 			}
-			same := g.PC == m.PC && g.Op == int(m.Op) && parseU(g.Gas) == m.Gas && g.Depth == m.Depth && len(g.Stack) == len(m.Stack) && eqWord(gtop, top)
+			same := g.PC == m.PC && g.Op == int(m.Op) && parseU(g.Gas) == m.Gas && g.Depth == m.Depth && len(g.Stack) == len(m.Stack) && eqWord(gtop, top) && g.Refund == m.Refund
 			if !same {
 				prev := ""
 				if k > 0 {
 					p := gs[k-1]
 					prev = fmt.Sprintf(" (previous step: pc=%d op=%s gas=%s cost=%s depth=%d; model cost=%d)", p.PC, p.OpName, p.Gas, p.GasCost, p.Depth, rs[k-1].GasCost)
 				}
-				return fmt.Sprintf("tx %d step %d: geth{pc=%d op=0x%02x(%s) gas=%d depth=%d stack=%d top=%s mem=%d} model{pc=%d op=0x%02x gas=%d depth=%d stack=%d top=%s mem=%d}%s",
-					ti, k, g.PC, g.Op, g.OpName, parseU(g.Gas), g.Depth, len(g.Stack), gtop, g.MemSize, m.PC, m.Op, m.Gas, m.Depth, len(m.Stack), top, m.MemSize, prev)
+				return fmt.Sprintf("tx %d step %d: geth{pc=%d op=0x%02x(%s) gas=%d depth=%d stack=%d top=%s mem=%d refund=%d} model{pc=%d op=0x%02x gas=%d depth=%d stack=%d top=%s mem=%d refund=%d}%s",
+					ti, k, g.PC, g.Op, g.OpName, parseU(g.Gas), g.Depth, len(g.Stack), gtop, g.MemSize, g.Refund, m.PC, m.Op, m.Gas, m.Depth, len(m.Stack), top, m.MemSize, m.Refund, prev)
 			}
 		}
 		if len(gs) != len(rs) {
